@@ -128,6 +128,61 @@ pub fn seeded_input(rng: &mut Rng, fmt: Fmt, tag: u64) -> (Vec<u8>, &'static str
     }
 }
 
+/// A source that says "nothing more" a few times and then has more (a file that is being appended
+/// to). Whatever the reader makes of that: once it has reported the end of input - or the one error -
+/// every further call must report the end.
+pub fn sticky_end_on_growing_source(fmt: Fmt, input: &Rc<Vec<u8>>, cfg: &Config, rng: &mut Rng) -> Result<bool, String> {
+    if input.len() < 2 {
+        return Ok(false);
+    }
+    // the pause sits behind a line end (or anywhere)
+    let lf: Vec<usize> = input.iter().enumerate().filter(|(_, b)| **b == b'\n').map(|(i, _)| i + 1).filter(|i| *i < input.len()).collect();
+    let at = if !lf.is_empty() && rng.chance(3, 4) { *rng.pick(&lf) } else { 1 + rng.below(input.len() - 1) };
+    let k = *rng.pick(&[1usize, 2, 2, 3, 6]);
+    crate::src::EOF_PAUSE.with(|e| e.set(Some((at, k))));
+    let res = guarded(|| {
+        let mut rig = crate::seqmon::make_rig(fmt, input.clone(), cfg, vec![]);
+        let mut ended = false;
+        for _ in 0..input.len() + 10 {
+            rig.begin_op();
+            match rig.r().next() {
+                Obs::End => {
+                    ended = true;
+                    break;
+                }
+                Obs::Err(e) if e.obs.is_parse() => {
+                    ended = true;
+                    break;
+                }
+                _ => {}
+            }
+        }
+        if !ended {
+            return Err("the reader never reports the end".to_string());
+        }
+        for j in 0..8 {
+            rig.begin_op();
+            let o = rig.r().next();
+            if !matches!(o, Obs::End) {
+                return Err(format!(
+                    "call {} after the end (or the error) was reported returns {} (the source answered Ok(0) {} times at offset {} and then delivered more)",
+                    j + 1,
+                    o.short(),
+                    k,
+                    at
+                ));
+            }
+        }
+        Ok(())
+    });
+    crate::src::EOF_PAUSE.with(|e| e.set(None));
+    match res {
+        Ok(Ok(())) => Ok(true),
+        Ok(Err(m)) => Err(m),
+        Err(Caught::Panic(m)) | Err(Caught::Budget(m)) => Err(format!("panic: {}", m)),
+    }
+}
+
 fn cov_transcript(rep: &mut Report, t: &Transcript, input_len: usize, cfg: &Config) {
     if input_len > cfg.cap {
         rep.count("runs_with_refill");
@@ -415,6 +470,19 @@ pub fn c01(ctx: &Ctx, rep: &mut Report) {
                 gen::tame(&mut cfg, input.len());
                 let vias: &[Via] = if ctx.miri && k == 1 { &[Via::Records] } else if ctx.miri { &[Via::Next] } else { &[Via::Next, Via::Records, Via::IntoRecords] };
                 c01_one(ctx, idx, rep, input.clone(), &cfg, vias, family);
+                if k == 0 && !ctx.miri && input.len() < 20_000 && rng.chance(1, 3) {
+                    rep.evaluations += 1;
+                    match sticky_end_on_growing_source(Fmt::Fasta, &input, &cfg, &mut rng) {
+                        Ok(true) => rep.count("ends_checked_on_a_growing_source"),
+                        Ok(false) => {}
+                        Err(m) => {
+                            let mut j = ctx.replay_json(idx);
+                            j["input"] = json!(show(&input));
+                            j["config"] = json!(cfg.describe());
+                            rep.violation("fasta-not-end-on-a-growing-source", m, j);
+                        }
+                    }
+                }
             }
         }
         if ctx.only.is_some() {
@@ -716,6 +784,19 @@ pub fn c02(ctx: &Ctx, rep: &mut Report) {
                 gen::tame(&mut cfg, input.len());
                 let vias: &[Via] = if ctx.miri && k == 1 { &[Via::Records] } else if ctx.miri { &[Via::Next] } else { &[Via::Next, Via::Records, Via::IntoRecords] };
                 c02_one(ctx, idx, rep, input.clone(), &cfg, vias, family);
+                if k == 0 && !ctx.miri && input.len() < 20_000 && rng.chance(1, 3) {
+                    rep.evaluations += 1;
+                    match sticky_end_on_growing_source(Fmt::Fastq, &input, &cfg, &mut rng) {
+                        Ok(true) => rep.count("ends_checked_on_a_growing_source"),
+                        Ok(false) => {}
+                        Err(m) => {
+                            let mut j = ctx.replay_json(idx);
+                            j["input"] = json!(show(&input));
+                            j["config"] = json!(cfg.describe());
+                            rep.violation("fastq-not-end-on-a-growing-source", m, j);
+                        }
+                    }
+                }
             }
         }
         if ctx.only.is_some() {
